@@ -574,9 +574,9 @@ var Rows = []*Row{
 		Model: func(p []int, m *MEnv) model.Operator {
 			return model.TapOnSubscribe(func() { m.Hit("Tap.subscribe") })
 		}},
-	{Name: "TapOnFinalize", Variants: []string{"TapOnFinalize", "DoOnFinalize"}, Params: none,
+	{Name: "TapOnFinalize", Variants: []string{"TapOnFinalize", "DoOnFinalize"}, Params: none, Pos: []string{"Tap.finalize"},
 		Build: func(v string, p []int, e *Env) Stage {
-			f := func() { e.hit("Tap.finalize") }
+			f := func() { e.Hit("Tap.finalize", nil, false) }
 			if v == "TapOnFinalize" {
 				return st(ro.TapOnFinalize[int](f))
 			}
